@@ -129,14 +129,19 @@ type Obs struct {
 	HasResult    bool       `json:"has_result"`
 	WriteHeaders int        `json:"write_headers"`
 	Panic        string     `json:"panic,omitempty"`
-	SetupErr     string     `json:"setup_err,omitempty"`
+	// values handed over by EARLIER exchanges, dumped again after this one (by step ID)
+	Recheck    map[int]*Tree `json:"recheck,omitempty"`
+	RecheckGot map[int]*Tree `json:"recheck_got,omitempty"`
+	SetupErr   string        `json:"setup_err,omitempty"`
 }
 
 // Hub is shared by the stubs of all services; steps run one at a time.
 type Hub struct {
-	mu   sync.Mutex
-	step *Step
-	obs  *Obs
+	mu      sync.Mutex
+	step    *Step
+	obs     *Obs
+	keptRes []keptValue
+	keptGot []keptValue
 }
 
 // Invoke is called by a generated stub method.
@@ -147,6 +152,7 @@ func (h *Hub) Invoke(ctx context.Context, design, svc, method string, payload an
 	ob.Invoked++
 	if payload != nil {
 		ob.Got = Dump(payload)
+		h.keptGot = keepAppend(h.keptGot, st.ID, payload)
 	}
 	if st.Err != nil {
 		return nil, "", h.buildErr(design, svc, st.Err)
@@ -319,7 +325,11 @@ func (h *Hub) start(g *Glue) (*instance, error) {
 		case pt.Implements(tFS) || pt == tFS:
 			args = append(args, reflect.ValueOf(http.Dir(".")).Convert(reflect.TypeOf(http.Dir(""))))
 		default:
-			args = append(args, reflect.Zero(pt))
+			if f, ok := multipartFunc(pt); ok {
+				args = append(args, f) // multipart endpoints: one decoder function per endpoint
+			} else {
+				args = append(args, reflect.Zero(pt))
+			}
 		}
 	}
 	srv := newSrv.Call(args)[0]
@@ -349,7 +359,11 @@ func (h *Hub) start(g *Glue) (*instance, error) {
 		case 5:
 			cargs = append(cargs, reflect.ValueOf(false))
 		default:
-			cargs = append(cargs, reflect.Zero(pt))
+			if f, ok := multipartFunc(pt); ok {
+				cargs = append(cargs, f)
+			} else {
+				cargs = append(cargs, reflect.Zero(pt))
+			}
 		}
 	}
 	inst.client = nc.Call(cargs)[0]
@@ -384,6 +398,9 @@ func (h *Hub) run(inst *instance, st *Step) (ob *Obs) {
 			ob.Panic = fmt.Sprintf("%v\n%s", r, debug.Stack())
 		}
 		ob.Req, ob.Resp, ob.WriteHeaders = inst.tap.req, inst.tap.resp, *inst.wh
+		h.mu.Lock()
+		ob.Recheck, ob.RecheckGot = redump(h.keptRes, st.ID), redump(h.keptGot, st.ID)
+		h.mu.Unlock()
 	}()
 	if st.Raw != nil {
 		body, _ := base64.StdEncoding.DecodeString(st.Raw.Body)
@@ -421,7 +438,17 @@ func (h *Hub) run(inst *instance, st *Step) (ob *Obs) {
 		}
 		payload = v.Interface()
 	}
-	ep := inst.client.MethodByName(mi.Var).Call(nil)[0].Interface().(goa.Endpoint)
+	cm := inst.client.MethodByName(mi.Var)
+	var margs []reflect.Value
+	for i := 0; i < cm.Type().NumIn(); i++ {
+		// multipart endpoints: the client method takes the multipart encoder function
+		if f, ok := multipartFunc(cm.Type().In(i)); ok {
+			margs = append(margs, f)
+		} else {
+			margs = append(margs, reflect.Zero(cm.Type().In(i)))
+		}
+	}
+	ep := cm.Call(margs)[0].Interface().(goa.Endpoint)
 	res, err := ep(context.Background(), payload)
 	if err != nil {
 		ob.ClientErr = describeErr(err)
@@ -430,6 +457,9 @@ func (h *Hub) run(inst *instance, st *Step) (ob *Obs) {
 	ob.HasResult = res != nil
 	if res != nil {
 		ob.ClientResult = Dump(res)
+		h.mu.Lock()
+		h.keptRes = keepAppend(h.keptRes, st.ID, res)
+		h.mu.Unlock()
 	}
 	return
 }
